@@ -180,13 +180,19 @@ fn amount_pairs(t: &dyn QtyOps, ua: usize, ub: usize, cfg: &Cfg, rng: &mut Rng, 
             }
         }
     } else {
-        // no reference unit: plain pairs
+        // no reference unit: plain pairs, identical amounts, and amounts that differ in the last place only
         for a in rotate(&base, salt, if cfg.thorough { 8 } else { 3 }) {
             for b in rotate(&base, salt + 5, if cfg.thorough { 6 } else { 2 }) {
                 v.push((a, b));
             }
             v.push((a, a));
+            let (lo, hi) = neighbours(a);
+            v.push((a, hi));
+            v.push((lo, a));
         }
+        let tiny = from_parts_dec(false, 1, -17);
+        v.push((tiny, from_parts_dec(false, 3, -17)));
+        v.push((tiny, zero()));
     }
     v.push((zero(), zero()));
     // a zero on one side only (the sum must still carry the left operand's unit, comparisons the right sign)
